@@ -22,7 +22,7 @@ func init() {
 				"Not decided: promptness of the close; select fairness; events already buffered in the channel.",
 			Rule:        "obligations per close site, per send site and calling root, per API method under the closed typestate, per channel field writer; non-trivial = site exists in production configuration",
 			Assumptions: []string{"go/types + go/ssa", "deferred functions run on every exit of the function that issued them", "production folding (E-F) re-verified each run"},
-			MinObl:      10,
+			MinObl:      15,
 		},
 		Configs: tiered(linuxQuick, linuxAll),
 		Run:     runC06,
